@@ -56,7 +56,13 @@ StepRe == /\ st.kind = "val" /\ st.k < KRe /\ TY(st.tn).tl2
                   /\ st' = [kind |-> "reenc", tn |-> st.tn, v |-> st.v, m |-> m, k |-> 0]
              \/ (~TY(st.tn).alias /\ st' = [kind |-> "reenc", tn |-> st.tn, v |-> st.v, m |-> "oversize", k |-> 0])
 
+(* Over(b, j, w): the bytes of b with w written over positions j..j+Len(w)-1; every enclosing
+   byte size stays what it was, so an inflated count (3-byte form: 65789, 9-byte form: 2^20)
+   lands inside an otherwise well-formed tiny object *)
+Over(b, j, w) == [i \in 1..Len(b) |-> IF i >= j /\ i < j + Len(w) THEN w[i - j + 1] ELSE b[i]]
 Muts2(b) == Muts(b) \cup {[b EXCEPT ![j] = 255] : j \in 1..Len(b)} \cup {[b EXCEPT ![j] = 254] : j \in 1..Len(b)}
+            \cup {Over(b, j, <<254, 255, 255>>) : j \in 1..(Len(b) - 2)}
+            \cup {Over(b, j, <<255, 0, 0, 16, 0, 0, 0, 0, 0>>) : j \in 1..(Len(b) - 8)}
 StepMut2 == /\ st.kind = "val" /\ st.k < KMut2 /\ TY(st.tn).tl2
             /\ \E m \in Muts2(Enc2(st.tn, st.v, FALSE)) : st' = [kind |-> "bytes2", tn |-> st.tn, b |-> m, k |-> 0]
 
